@@ -107,6 +107,13 @@ Definition settled_ph (p : phase) : bool :=
   | _ => false
   end.
 
+(* the tag clause holds when a mounted root gets tagged, or the root cannot be mounted *)
+Definition tag_ok : bool := c_tagmounted c || negb (c_mount c && negb (g_ismf g (c_root c))).
+
+(* the fallback inside Mount *)
+Definition mtfb_ph (p : phase) : bool :=
+  match p with MtPre | MtF1 | MtF2 | MtC => true | _ => false end.
+
 (* phases of the mount path *)
 Definition mt_ph (p : phase) : bool :=
   match p with MtRdy | Mounting | MtPre | MtF1 | MtF2 | MtC | MountedP => true | _ => false end.
@@ -142,7 +149,8 @@ Record Inv (st : state) : Prop := {
   i_noskip : root_refpush c (c_root c) = true -> ph st (c_root c) <> SkipP;
   i_mt : forall n, mt_ph (ph st n) = true -> c_mount c = true /\ g_ismf g n = false;
   i_tagroot : tag st = None \/ tag st = Some (c_root c);
-  i_tagged : c_mode c <> MGraph -> c_mount c && negb (g_ismf g (c_root c)) = false ->
+  i_mtfb : forall n, mtfb_ph (ph st n) = true -> root_refpush c n = false;
+  i_tagged : c_mode c <> MGraph -> tag_ok = true ->
              (ph st (c_root c) = PostP \/ ph st (c_root c) = Done \/
               (root_refpush c (c_root c) = true /\ exists sk, ph st (c_root c) = Closing sk)) ->
              tag st <> None
@@ -385,7 +393,7 @@ Ltac ph_contra Hph :=
   end; try discriminate Hph.
 
 Lemma pres_tagged st e st' : Inv st -> step g c st e = Some st' ->
-  c_mode c <> MGraph -> c_mount c && negb (g_ismf g (c_root c)) = false ->
+  c_mode c <> MGraph -> tag_ok = true ->
   (ph st' (c_root c) = PostP \/ ph st' (c_root c) = Done \/
    (root_refpush c (c_root c) = true /\ exists sk, ph st' (c_root c) = Closing sk)) ->
   tag st' <> None.
@@ -408,7 +416,12 @@ Proof.
         | apply IT; left; assumption
         | apply IT; right; right; split; [assumption | solve [eauto]]
         | exfalso; apply NS; assumption
-        | exfalso; destruct MT as [A B]; [old_ph; reflexivity | rewrite A, B in Hnm; discriminate] ].
+        | exfalso; specialize (RR eq_refl); discriminate RR
+        | exfalso; pose proof (i_mtfb st I (c_root c)) as FB; rewrite FB in RP;
+          [discriminate | old_ph; reflexivity]
+        | exfalso; destruct MT as [A B]; [old_ph; reflexivity |];
+          unfold tag_ok in Hnm; rewrite A, B in Hnm;
+          match goal with Hx : c_tagmounted c = false |- _ => rewrite Hx in Hnm end; discriminate ].
 Qed.
 
 Lemma pres_mt st e st' : Inv st -> step g c st e = Some st' ->
@@ -422,6 +435,16 @@ Proof.
   all: unfold mount_applies in *;
     repeat match goal with Hx : (_ && _) = true |- _ => apply andb_true_iff in Hx; destruct Hx end;
     split; [assumption | now apply negb_true_iff].
+Qed.
+
+Lemma pres_mtfb st e st' : Inv st -> step g c st e = Some st' ->
+  forall m, mtfb_ph (ph st' m) = true -> root_refpush c m = false.
+Proof.
+  intros I H m Hm. pose proof (i_mtfb st I) as IF.
+  step_inv H; simp_st; try (now apply IF);
+  (upd_cases m n; [| now apply IF]);
+  moved Hm;
+  first [ assumption | apply IF; old_ph; reflexivity ].
 Qed.
 
 Lemma step_preserves_inv st e st' : Inv st -> step g c st e = Some st' -> Inv st'.
@@ -440,6 +463,7 @@ Proof.
   - eapply pres_noskip; eauto.
   - eapply pres_mt; eauto.
   - eapply pres_tagroot; eauto.
+  - eapply pres_mtfb; eauto.
   - eapply pres_tagged; eauto.
 Qed.
 
@@ -577,7 +601,7 @@ End Rank.
 
 Lemma tagged_lemma tr st :
   accepts g c d0 tr = Some st -> returned st = Some true -> c_mode c <> MGraph ->
-  c_mount c && negb (g_ismf g (c_root c)) = false ->
+  tag_ok = true ->
   tag st = Some (c_root c).
 Proof.
   intros Ha Hr Hm Hnm. unfold accepts in Ha.
@@ -596,28 +620,30 @@ End Inv.
 
 Lemma copy_tagged_lemma (g : graph) (dflt opt : Z) (refpusher mount : bool) (root : node)
       (cached0 d0 : list node) (tags0 : str -> option node) (srcRef dstRef : str) tr st :
-  mount && negb (g_ismf g root) = false ->
   accepts g (copy_cfg dflt opt refpusher mount root cached0) d0 tr = Some st ->
   returned st = Some true ->
   tags_after tags0 (eff_ref srcRef dstRef) st (eff_ref srcRef dstRef) = Some root.
 Proof.
-  intros Hnm Ha Hr. unfold tags_after. rewrite str_eqb_refl.
-  rewrite (tagged_lemma g _ d0 tr st Ha Hr); [reflexivity| |exact Hnm].
+  intros Ha Hr. unfold tags_after. rewrite str_eqb_refl.
+  rewrite (tagged_lemma g _ d0 tr st Ha Hr); [reflexivity| |reflexivity].
   unfold copy_cfg. simpl. destruct refpusher; discriminate.
 Qed.
 
-(* a blob root that gets mounted is never tagged (OnMounted is not wrapped by prepareCopy) *)
+(* before the fix (c_tagmounted = false): a blob root that gets mounted is never tagged
+   (OnMounted was not wrapped by prepareCopy) *)
 Definition g_blob : graph := mkGraph 1 (fun _ => []) (fun _ => false) (fun _ => false) (fun n => n).
-Definition c_mountroot : cfg := mkCfg 3 MTagger 0 true [].
+Definition c_mountroot : cfg := mkCfg 3 MTagger 0 true false [].
 Definition tr_mountroot : list event :=
   [ExB 0; ExE 0 false; Cb CMountFrom 0; MtB 0; MtE 0 MMounted; Cb CMounted 0; Ret true].
 
 Lemma tagged_refuted_for_mounted_blob_root :
   exists g c d0 tr st,
+    c_tagmounted c = false /\
     closed_nodes g d0 /\ accepts g c d0 tr = Some st /\ returned st = Some true /\
     c_mode c <> MGraph /\ tag st <> Some (c_root c).
 Proof.
   exists g_blob, c_mountroot, [], tr_mountroot. eexists.
+  split; [reflexivity|].
   split; [intros m x []|]. split; [vm_compute; reflexivity|].
   split; [reflexivity|]. split; simpl; discriminate.
 Qed.
@@ -635,7 +661,7 @@ Proof. reflexivity. Qed.
 Definition g_twin : graph :=
   mkGraph 3 (fun n => match n with 1 => [0] | _ => [] end) (fun _ => false)
           (fun n => Nat.eqb n 1) (fun n => match n with 0 => 0 | _ => 1 end).
-Definition c_twin : cfg := mkCfg 3 MGraph 1 false [].
+Definition c_twin : cfg := mkCfg 3 MGraph 1 false true [].
 Definition tr_twin : list event := [ExB 1; ExE 1 true; Cb CSkip 1; Ret true].
 
 Lemma closure_refuted_without_mt_consistency :
@@ -655,7 +681,7 @@ Qed.
 Definition g_ex : graph :=
   mkGraph 4 (fun n => match n with 2 => [0; 1; 1] | 3 => [2; 0] | _ => [] end) (fun _ => false)
           (fun n => Nat.leb 2 n) (fun n => n).
-Definition c_ex : cfg := mkCfg 2 MTagger 3 false [].
+Definition c_ex : cfg := mkCfg 2 MTagger 3 false true [].
 Definition tr_ex : list event :=
   [ExB 3; ExE 3 false; SFB 3; SFE 3; SFC 3; ExB 2; ExB 0; ExE 2 false; ExE 0 false; SFB 2;
    Cb CPre 0; SFE 2; SFB 0; SFC 2; SFE 0; PuB 0 false; ExB 1; ExE 1 true; PuE 0 false POk;
